@@ -124,6 +124,7 @@ impl<'a> SolutionNode<'a> {
     pub fn set_no_backtracking(&mut self) {
 
         self.no_backtracking = true;
+        let self_ptr: *const SolutionNode = self;
         let mut option_parent = &self.parent_node;
         loop {
             match option_parent {
@@ -137,7 +138,13 @@ impl<'a> SolutionNode<'a> {
                         // the no_backtracking flag there also.
                         if let Some(head_node) = &(*raw_ptr).head_sn {
                             let raw_ptr2 = head_node.as_ptr();
-                            (*raw_ptr2).no_backtracking = true;
+                            // The head node of the parent can be this node,
+                            // which is flagged already. Do not write to it
+                            // through a second pointer while `self` is
+                            // mutably borrowed.
+                            if raw_ptr2 as *const SolutionNode != self_ptr {
+                                (*raw_ptr2).no_backtracking = true;
+                            }
                         }
                         // Get the next parent.
                         option_parent = &(*raw_ptr).parent_node;
